@@ -28,6 +28,7 @@ var c17alpha = []struct {
 	{"K_u16", refcodec.FieldSpec{ID: 7, Len: 2}},
 	{"K_str", refcodec.FieldSpec{ID: 82, Len: 65535}},
 	{"K_oct", refcodec.FieldSpec{ID: 313, Len: 65535}}, // ipHeaderPacketSection: a *known* element of the type unknown ones are delivered as
+	{"K_user", refcodec.FieldSpec{ID: 2, PEN: verifPEN, Len: 2}}, // verifSigned16: known through a registry the application added
 	{"U_iana_fixed3", refcodec.FieldSpec{ID: 999, Len: 3}},
 	{"U_iana_var", refcodec.FieldSpec{ID: 998, Len: 65535}},
 	{"U_ent_fixed5", refcodec.FieldSpec{ID: 77, PEN: 4242, Len: 5}},
@@ -108,6 +109,15 @@ func c17run(c c17case) *xplore.Violation {
 	}
 	ch := make(chan *entities.Message, 4)
 	cp.VerifSetMsgChan(ch)
+	// a second collecting process with another decoding mode, created afterwards: the mode is a property of
+	// each collecting process, not of the package
+	otherMode := colmodel.Strict
+	if c.Mode == colmodel.Strict {
+		otherMode = colmodel.Keep
+	}
+	if _, err := collector.VerifInitCollectingProcess(collector.CollectorInput{Address: "127.0.0.1:0", Protocol: "udp", MaxBufferSize: 65535, DecodingMode: colcheck.ModeOf(otherMode)}, nullClock{}); err != nil {
+		panic(err)
+	}
 	model := colmodel.New(c.Mode)
 	step := func(what string, m []byte) (v *xplore.Violation) {
 		defer func() {
@@ -249,7 +259,7 @@ func runC17(tier, replay string) int {
 				}
 				hasU := false
 				for _, t := range c.Tmpl {
-					if t >= 3 {
+					if t >= 4 {
 						hasU = true
 					}
 				}
@@ -275,7 +285,7 @@ func runC17(tier, replay string) int {
 	ev.Coverage = common.Coverage{
 		"states": len(tmplSeen), "transitions": 2 * len(cases), "traces_validated_against_impl": len(cases), "samples": samples,
 		"evaluations": len(cases), "distinct_nontrivial": len(cases),
-		"rule":       fmt.Sprintf("every template of arity 1..%d over 8 element kinds {known u16, known string, known octetArray, unknown IANA fixed(3), unknown IANA variable, unknown enterprise fixed(5), unknown enterprise variable, unknown id in a known enterprise} at every position x variable-length value rotations over {0,1,254,255,300} x {1,2} records x {strict, keep, drop} (each also with the data set ending in set padding), and each template also after an earlier valid definition of the same id and (lenient modes) after another template that announced the same unknown elements with different widths; each case = template message then data message on a fresh real collector, judged by the colmodel/refcodec reference (strict: template with any unknown rejected and the data after it rejected; keep: unknown fields delivered as octet arrays with exactly the received bytes; drop: exactly the unknown fields absent; known fields always their reference value). states = distinct templates; cases are distinct by construction", maxAr),
+		"rule":       fmt.Sprintf("every template of arity 1..%d over 9 element kinds {known u16, known string, known octetArray, known through a user-added registry, unknown IANA fixed(3), unknown IANA variable, unknown enterprise fixed(5), unknown enterprise variable, unknown id in a known enterprise} at every position x variable-length value rotations over {0,1,254,255,300} x {1,2} records x {strict, keep, drop} (each also with the data set ending in set padding), and each template also after an earlier valid definition of the same id and (lenient modes) after another template that announced the same unknown elements with different widths; each case = template message then data message on a fresh real collector, judged by the colmodel/refcodec reference (strict: template with any unknown rejected and the data after it rejected; keep: unknown fields delivered as octet arrays with exactly the received bytes; drop: exactly the unknown fields absent; known fields always their reference value). states = distinct templates; cases are distinct by construction", maxAr),
 		"exhaustive": true, "accepted_cases": accepted, "strict_rejected_cases": rejected,
 	}
 	ev.WallS = common.Since(rep.Start)
